@@ -97,9 +97,12 @@ def check_pair(case):
     if len(set(got)) != len(got) or sorted(got) != sorted(want):
         return BAD("occurrence_list", {"got": sorted(got), "want": want})
     has = bool(want)
-    for name, g in (("contains", B.contains(A)), ("in", A in B), ("contained_in", A.contained_in(B)), ("not_avoids", not B.avoids(A)), ("not_avoided_by", not A.avoided_by(B)), ("count", A.count_occurrences_in(B) == len(want) and has)):
+    for name, g in (("contains", B.contains(A)), ("in", A in B), ("contained_in", A.contained_in(B)), ("not_avoids", not B.avoids(A)), ("not_avoided_by", not A.avoided_by(B))):
         if bool(g) != has:
             return BAD("entry_" + name, {"want": has})
+    cnt = A.count_occurrences_in(B)
+    if cnt != len(want) or type(cnt) is not int:
+        return BAD("entry_count_occurrences_in", {"got": cnt, "want": len(want)})
     # classical smaller pattern inside a mesh pattern: plain occurrences in the underlying permutation
     cgot = sorted(Perm(a).occurrences_in(B))
     if cgot != ref.occ(a, b):
